@@ -39,6 +39,8 @@ func b64(c Case, k string) []byte {
 	}
 	return b
 }
+func encodeB64(b []byte) string { return base64.StdEncoding.EncodeToString(b) }
+
 func str(c Case, k string) string {
 	s, _ := c[k].(string)
 	return s
